@@ -136,3 +136,31 @@ package server
 //@   ghost-at entry : ghost_waited := 0
 //@   ghost-at after call errgroup.(*Group).Wait #1 : ghost_waited := ite(result == nil, 1, 0)
 //@   assert-at call makeRequestWithRetry #1 : ghost_waited == 1 && arg1 == "PUT"
+// What Wait reports as success is `b.done && b.err == nil` (Wait: result == b.err, reached only
+// with b.done || b.err != nil). So on EVERY exit of Run that leaves this state behind, either
+// the blob was already done on entry (mounted by Prepare: no session to commit) or every part
+// was uploaded (g.Wait() == nil) AND the registry accepted the LAST commit PUT that was issued
+// (makeRequestWithRetry returned a nil error, i.e. status < 400 by its C03 contract).
+// ghost_commit is overwritten by every attempt: it always describes the most recent one, so a
+// stale/shadowed/reset error value, a `done` set on a failure path, or a commit loop left after
+// a rejected attempt (retries exhausted, cancellation) with b.err == nil all violate the clause.
+//@   ghost-at entry : ghost_commit := 0
+//@   ghost-at entry : ghost_tries := 0
+//@   ghost-at after call makeRequestWithRetry #1 : ghost_commit := ite(result.1 == nil, 1, 0)
+//@   ghost-at after call makeRequestWithRetry #1 : ghost_tries := ghost_tries + 1
+//@   ensures b.done && b.err == nil ==> old(b.done) || (ghost_waited == 1 && ghost_commit == 1 && ghost_tries >= 1)
+// an accepted commit is the last one: the loop is never continued after success (at the head of
+// the commit loop no earlier attempt was accepted)
+//@   loop 3 invariant ghost_commit == 0 && ghost_waited == 1 && ghost_tries >= 0
+
+// ---- Run$1 (the goroutine that uploads one part): g.Wait() == nil (ghost_waited above) means
+// ---- every such goroutine returned nil; it returns nil only if the LAST uploadPart attempt for
+// ---- this part returned nil (same shape as the commit loop: a stale error value or a fall out
+// ---- of the retry loop must not be reported as an uploaded part).
+//@ func (*blobUpload).Run$1
+//@   opt safe index,div,typeassert,panic,makeslice,shift,nilmap     -- (b.Digest[7:19] in the log line: the length fact is Run's precondition; uploadPart is not under contract and havocs it)
+//@   ghost-at entry : ghost_part := 0
+//@   ghost-at after call (*blobUpload).uploadPart #1 : ghost_part := ite(result == nil, 1, 0)
+//@   assume-at after call fmt.Errorf #1 : result != nil    -- library fact
+//@   ensures result == nil ==> ghost_part == 1
+//@   loop 1 invariant ghost_part == 0
